@@ -157,16 +157,31 @@ def true_loop(c, uid):
   if kind == "plus_ring":
     n = c.randint(2, 4)
   via_net = c.random() < 0.4
+  # the ring variables may be the fields of ONE struct wire (the SCC then watches fields, not signals);
+  # field names are x0..x13 or a chain in which every name is a prefix of the next
+  via_struct = (not via_net) and c.random() < 0.35
+  chain = c.random() < 0.5
+  fname = (lambda i: "v" + "ab"[i % 2] * (i % n)) if chain else (lambda i: "x%d" % (i % n))
+  if via_struct and chain:
+    fname = lambda i: "v" + "".join("ab"[j % 2] for j in range(i % n))
   signals = [{"name": "in0", "kind": "in", "type": w, "dims": []},
              {"name": "in1", "kind": "in", "type": w, "dims": []},
              {"name": "sel", "kind": "in", "type": 1, "dims": []},
              {"name": "o", "kind": "out", "type": w, "dims": []}]
+  structs = {}
+  if via_struct:
+    order = list(range(n))
+    c.shuffle(order)
+    structs["R"] = [[fname(i), w] for i in order]
+    signals.append({"name": "m", "kind": "wire", "type": "R", "dims": []})
   for i in range(n):
-    signals.append({"name": "x%d" % i, "kind": "wire", "type": w, "dims": []})
+    if not via_struct:
+      signals.append({"name": "x%d" % i, "kind": "wire", "type": w, "dims": []})
     if via_net:
       signals.append({"name": "y%d" % i, "kind": "wire", "type": w, "dims": []})
   items = []
-  X = lambda i: rd(A(("y%d" if via_net else "x%d") % (i % n)), w)
+  XP = (lambda i: A("m", ["a", fname(i)])) if via_struct else (lambda i: A("x%d" % (i % n)))
+  X = lambda i: rd(A("y%d" % (i % n)) if via_net else XP(i), w)
   for i in range(n):
     prev = X(i - 1)
     if kind == "or_ring":
@@ -181,13 +196,13 @@ def true_loop(c, uid):
     else:  # mux
       e = ["ife", rd(A("sel"), 1), rd(A("in0"), w), prev] if i == 0 else \
           ["ife", rd(A("sel"), 1), prev, rd(A("in1"), w)]
-    items.append({"k": "comb", "name": "up%d" % i, "stmts": [["assign", A("x%d" % i), e]]})
+    items.append({"k": "comb", "name": "up%d" % i, "stmts": [["assign", XP(i), e]]})
     if via_net:
       items.append({"k": "connect", "a": A("y%d" % i), "b": A("x%d" % i), "flip": c.random() < 0.5,
                     "op": "connect"})
-  items.append({"k": "connect", "a": A("o"), "b": A("x0"), "flip": False, "op": "connect"})
+  items.append({"k": "connect", "a": A("o"), "b": XP(0), "flip": False, "op": "connect"})
   c.shuffle(items)
-  spec = {"uid": uid, "structs": {}, "top": "Top", "profile": "true_loop:" + kind,
+  spec = {"uid": uid, "structs": structs, "top": "Top", "profile": "true_loop:" + kind + (":struct" if via_struct else ""),
           "comps": {"Top": {"signals": signals, "subs": [], "frees": [], "items": items}}}
   must_converge = kind in ("or_ring", "mux", "inv_ring_even", "and_ring")
   never = kind == "inv_ring_odd"
